@@ -499,6 +499,29 @@ fn sec_surgery<T: Word>(ctx: &mut Ctx, cfg: &Cfg, rep: &mut Report, rng: &mut Rn
                 rep.violate(op, d, format!("got (0x{ga:x}, 0x{gb:x}) want (0x{wa:x}, 0x{wb:x})"));
             }
         }
+        // cswap of ciphertexts whose radix differs from the selector's (the operation converts them internally)
+        for bit in 0..2u32 {
+            let op = "cswap_cross_radix";
+            let mut d = base(op, a, ctx);
+            d.put("b", hexw(b));
+            d.put("bit", bit);
+            let lay = GLWELayout { n: ctx.glwe_infos.n, base2k: Base2K(ctx.glwe_infos.base2k.0 - 2), k: TorusPrecision(3 * (ctx.glwe_infos.base2k.0 - 2)), rank: ctx.glwe_infos.rank };
+            d.put("ct_base2k", lay.base2k.0);
+            rep.case(op, &format!("{BE_NAME}|{}|{a:x}|{b:x}|{bit}", T::NAME), true);
+            let sel: Prepared<u32> = ctx.enc_prepared(bit);
+            let mut x: Packed<T> = ctx.enc_packed_with(T::from_u64(a), lay);
+            let mut y: Packed<T> = ctx.enc_packed_with(T::from_u64(b), lay);
+            let r = guarded(|| ctx.module.cswap(&mut x, &mut y, &sel.get_bit(0), ctx.scratch.borrow()));
+            if let Err(p) = r {
+                rep.violate(op, d, format!("panic: {p}"));
+                continue;
+            }
+            let (wa, wb) = if bit == 1 { (b, a) } else { (a, b) };
+            let (ga, gb) = (ctx.dec_packed(&x).to_u64(), ctx.dec_packed(&y).to_u64());
+            if (ga, gb) != (wa, wb) {
+                rep.violate(op, d, format!("got (0x{ga:x}, 0x{gb:x}) want (0x{wa:x}, 0x{wb:x})"));
+            }
+        }
         // packed -> prepared (bootstrapping) -> packed: every bit survives
         {
             let op = "prepare_roundtrip";
@@ -543,6 +566,33 @@ fn lwe_phase(lwe: &LWE<Vec<u8>>, sk: &LWESecret<Vec<u8>>) -> (i128, usize) {
 }
 
 // ---------------------------------------------------------------------------------------------
+// exact scratch windows for the operations that have a companion size query (C12 events met by this monitor carry
+// class = scratch_query_too_small and are collected by C12's `core-c15` run)
+// ---------------------------------------------------------------------------------------------
+fn exact_window(bytes: usize, rng: &mut Rng) -> ScratchWin {
+    let mut w = ScratchWin::new(bytes);
+    w.fill(rng);
+    w
+}
+
+fn is_scratch_panic(p: &str) -> bool {
+    p.contains("Attempted to take") || p.contains("scratch.available()") || p.contains("from scratch")
+}
+
+/// records a scratch-exhaustion panic under its own op name; returns true when `p` was one
+fn note_scratch(rep: &mut Report, op: &str, d: &J, bytes: usize, p: &str) -> bool {
+    if !is_scratch_panic(p) {
+        return false;
+    }
+    let mut d = d.clone();
+    d.put("class", "scratch_query_too_small");
+    d.put("scratch_op", op);
+    d.put("tmp_bytes", bytes);
+    rep.violate(&format!("{op}:exact_scratch"), d, format!("panic with a scratch window of exactly the declared {bytes} bytes: {p}"));
+    true
+}
+
+// ---------------------------------------------------------------------------------------------
 // C. blind selection / retrieval / rotation
 // ---------------------------------------------------------------------------------------------
 fn sec_blind(ctx: &mut Ctx, cfg: &Cfg, rep: &mut Report, rng: &mut Rng) {
@@ -566,6 +616,8 @@ fn sec_blind(ctx: &mut Ctx, cfg: &Cfg, rep: &mut Report, rng: &mut Rng) {
             let kp: Prepared<u32> = ctx.enc_prepared(k);
             let mut cts: Vec<Packed<u32>> = words.iter().map(|w| ctx.enc_packed(*w)).collect();
             let mut res: Packed<u32> = ctx.alloc_packed();
+            let bytes = GLWEBlindSelection::<u32, BE>::glwe_blind_selection_tmp_bytes(&ctx.module, &ctx.glwe_infos, &ctx.ggsw_infos);
+            let mut sw = exact_window(bytes, rng);
             let r = guarded(|| {
                 let mut map: HashMap<usize, &mut Packed<u32>> = HashMap::new();
                 for (i, ct) in cts.iter_mut().enumerate() {
@@ -573,9 +625,11 @@ fn sec_blind(ctx: &mut Ctx, cfg: &Cfg, rep: &mut Report, rng: &mut Rng) {
                         map.insert(i, ct);
                     }
                 }
-                GLWEBlindSelection::<u32, BE>::glwe_blind_selection(&ctx.module, &mut res, map, &kp, rsh, mask, ctx.scratch.borrow());
+                GLWEBlindSelection::<u32, BE>::glwe_blind_selection(&ctx.module, &mut res, map, &kp, rsh, mask, sw.scratch());
             });
+            rep.count("exact_scratch_calls", 1);
             match r {
+                Err(p) if note_scratch(rep, op, &d, bytes, &p) => {}
                 Err(p) => rep.violate(op, d, format!("panic: {p}")),
                 Ok(()) => {
                     if let Err(e) = check_all_coeffs::<u32, _>(ctx, &res, want as u64) {
@@ -600,8 +654,12 @@ fn sec_blind(ctx: &mut Ctx, cfg: &Cfg, rep: &mut Report, rng: &mut Rng) {
             rep.case(op, &format!("{BE_NAME}|{k:x}|{rsh}|{mask}|{len}"), len > 1);
             let kp: Prepared<u32> = ctx.enc_prepared(k);
             let mut cts: Vec<Packed<u32>> = words.iter().map(|w| ctx.enc_packed(*w)).collect();
-            let r = guarded(|| ctx.module.glwe_blind_retrieval_statefull(&mut cts, &kp, rsh, mask, ctx.scratch.borrow()));
+            let bytes = ctx.module.glwe_blind_retrieval_tmp_bytes(&ctx.glwe_infos, &ctx.ggsw_infos);
+            let mut sw = exact_window(bytes, rng);
+            let r = guarded(|| ctx.module.glwe_blind_retrieval_statefull(&mut cts, &kp, rsh, mask, sw.scratch()));
+            rep.count("exact_scratch_calls", 1);
             match r {
+                Err(p) if note_scratch(rep, op, &d, bytes, &p) => {}
                 Err(p) => rep.violate(op, d.clone(), format!("panic: {p}")),
                 Ok(()) => {
                     let got = ctx.dec_packed(&cts[0]);
@@ -616,9 +674,12 @@ fn sec_blind(ctx: &mut Ctx, cfg: &Cfg, rep: &mut Report, rng: &mut Rng) {
                     if have != all {
                         rep.violate(op, d.clone(), "the retrieval network changed the multiset of stored words".into());
                     }
-                    let r2 = guarded(|| ctx.module.glwe_blind_retrieval_statefull_rev(&mut cts, &kp, rsh, mask, ctx.scratch.borrow()));
+                    let mut sw2 = exact_window(bytes, rng);
+                    let r2 = guarded(|| ctx.module.glwe_blind_retrieval_statefull_rev(&mut cts, &kp, rsh, mask, sw2.scratch()));
+                    rep.count("exact_scratch_calls", 1);
                     rep.case("glwe_blind_retrieval_statefull_rev", &format!("{BE_NAME}|{k:x}|{rsh}|{mask}|{len}"), len > 1);
                     match r2 {
+                        Err(p) if note_scratch(rep, "glwe_blind_retrieval_statefull_rev", &d, bytes, &p) => {}
                         Err(p) => rep.violate("glwe_blind_retrieval_statefull_rev", d, format!("panic: {p}")),
                         Ok(()) => {
                             for i in 0..len {
@@ -649,15 +710,19 @@ fn sec_blind(ctx: &mut Ctx, cfg: &Cfg, rep: &mut Report, rng: &mut Rng) {
             let kp: Prepared<u32> = ctx.enc_prepared(k);
             let cts: Vec<Packed<u32>> = words.iter().map(|w| ctx.enc_packed(*w)).collect();
             let mut res: Packed<u32> = ctx.alloc_packed();
+            let bytes = GLWEBlindRetriever::retrieve_tmp_bytes(&ctx.module, &ctx.glwe_infos, &ctx.ggsw_infos);
+            let mut sw = exact_window(bytes, rng);
             let r = guarded(|| {
                 let mut retr = GLWEBlindRetriever::alloc(&ctx.glwe_infos, cap);
-                retr.retrieve(&ctx.module, &mut res, &cts, &kp, offset, ctx.scratch.borrow());
+                retr.retrieve(&ctx.module, &mut res, &cts, &kp, offset, sw.scratch());
                 // second use of the same retriever (state must have been reset)
                 let mut res2: Packed<u32> = ctx.alloc_packed();
-                retr.retrieve(&ctx.module, &mut res2, &cts, &kp, offset, ctx.scratch.borrow());
+                retr.retrieve(&ctx.module, &mut res2, &cts, &kp, offset, sw.scratch());
                 res2
             });
+            rep.count("exact_scratch_calls", 1);
             match r {
+                Err(p) if note_scratch(rep, op, &d, bytes, &p) => {}
                 Err(p) => rep.violate(op, d, format!("panic: {p}")),
                 Ok(res2) => {
                     let (g1, g2) = (ctx.dec_packed(&res), ctx.dec_packed(&res2));
@@ -689,8 +754,12 @@ fn sec_blind(ctx: &mut Ctx, cfg: &Cfg, rep: &mut Report, rng: &mut Rng) {
             let enc = EncryptionLayout::new_from_default_sigma(ctx.glwe_infos).unwrap();
             ctx.module.glwe_encrypt_sk(&mut a, &pt, &ctx.sk_prep, &enc, &mut ctx.xe, &mut ctx.xa, ctx.scratch.borrow());
             let mut res: GLWE<Vec<u8>> = GLWE::alloc_from_infos(&ctx.glwe_infos);
-            let r = guarded(|| ctx.module.glwe_blind_rotation(&mut res, &a, &kp, sign, rsh, mask, lsh, ctx.scratch.borrow()));
+            let bytes = ctx.module.glwe_blind_rotation_tmp_bytes(&ctx.glwe_infos, &ctx.ggsw_infos);
+            let mut sw = exact_window(bytes, rng);
+            let r = guarded(|| ctx.module.glwe_blind_rotation(&mut res, &a, &kp, sign, rsh, mask, lsh, sw.scratch()));
+            rep.count("exact_scratch_calls", 1);
             match r {
+                Err(p) if note_scratch(rep, op, &d, bytes, &p) => {}
                 Err(p) => rep.violate(op, d, format!("panic: {p}")),
                 Ok(()) => {
                     let want = rotate_i64(&data, rot);
@@ -733,17 +802,25 @@ fn sec_blind(ctx: &mut Ctx, cfg: &Cfg, rep: &mut Report, rng: &mut Rng) {
                 let d = jo! {"backend" => BE_NAME, "pset" => ctx.pset, "key_seed" => ctx.key_seed, "op" => op, "k" => hexw(k as u64), "bit_rsh" => rsh, "bit_mask" => mask, "bit_lsh" => lsh, "sign" => sign, "rotation" => rot};
                 rep.case(op, &format!("{BE_NAME}|{k:x}|{rsh}|{mask}|{lsh}|{sign}"), rot != 0);
                 let mut res: GGSW<Vec<u8>> = GGSW::alloc_from_infos(&res_infos);
+                let bytes = if op == "scalar_to_ggsw_blind_rotation" {
+                    GGSWBlindRotation::<u32, BE>::scalar_to_ggsw_blind_rotation_tmp_bytes(&ctx.module, &res_infos, &k_infos)
+                } else {
+                    GGSWBlindRotation::<u32, BE>::ggsw_to_ggsw_blind_rotation_tmp_bytes(&ctx.module, &res_infos, &k_infos)
+                };
+                let mut sw = exact_window(bytes, rng);
                 let r = guarded(|| {
                     if op == "scalar_to_ggsw_blind_rotation" {
-                        GGSWBlindRotation::<u32, BE>::scalar_to_ggsw_blind_rotation(&ctx.module, &mut res, &scalar, &kp, sign, rsh, mask, lsh, ctx.scratch.borrow());
+                        GGSWBlindRotation::<u32, BE>::scalar_to_ggsw_blind_rotation(&ctx.module, &mut res, &scalar, &kp, sign, rsh, mask, lsh, sw.scratch());
                     } else {
                         let mut src: GGSW<Vec<u8>> = GGSW::alloc_from_infos(&res_infos);
                         let enc = EncryptionLayout::new_from_default_sigma(res_infos).unwrap();
                         ctx.module.ggsw_encrypt_sk(&mut src, &scalar, &ctx.sk_prep, &enc, &mut ctx.xe, &mut ctx.xa, ctx.scratch.borrow());
-                        GGSWBlindRotation::<u32, BE>::ggsw_blind_rotation(&ctx.module, &mut res, &src, &kp, sign, rsh, mask, lsh, ctx.scratch.borrow());
+                        GGSWBlindRotation::<u32, BE>::ggsw_blind_rotation(&ctx.module, &mut res, &src, &kp, sign, rsh, mask, lsh, sw.scratch());
                     }
                 });
+                rep.count("exact_scratch_calls", 1);
                 match r {
+                    Err(p) if note_scratch(rep, op, &d, bytes, &p) => {}
                     Err(p) => rep.violate(op, d, format!("panic: {p}")),
                     Ok(()) => match ggsw_cells_check(&res, &want, &ctx.sk, -27) {
                         Ok(worst) => rep.maxf("ggsw_blind_rotation_cell_err_units", worst),
@@ -870,15 +947,22 @@ fn sec_cbt_standalone(cfg: &Cfg, rep: &mut Report, rng: &mut Rng) {
             let enc = EncryptionLayout::new_from_default_sigma(lwe_infos).unwrap();
             module.lwe_encrypt_sk(&mut lwe, &pt, &sk_lwe, &enc, &mut xe, &mut xa, scratch.borrow());
             let mut g: GGSW<Vec<u8>> = GGSW::alloc_from_infos(&ggsw_infos);
+            // exact window of the companion query, asked the way the operation's own assertion asks it (infos of the prepared key and
+            // of the result object: they report k = size * base2k, which can exceed the k of the layouts they were allocated from)
+            let bytes = poulpy_bin_fhe::circuit_bootstrapping::CircuitBootstrappingExecute::<CGGI, BE>::circuit_bootstrapping_execute_tmp_bytes(&module, poulpy_bin_fhe::circuit_bootstrapping::CircuitBootstrappingKeyInfos::block_size(&cbt), 1, &g, &cbt);
+            let mut sw = exact_window(bytes, rng);
             let r = guarded(|| {
                 if exponent {
-                    cbt.execute_to_exponent(&module, log_gap_out, &mut g, &lwe, log_domain, 1, scratch.borrow());
+                    cbt.execute_to_exponent(&module, log_gap_out, &mut g, &lwe, log_domain, 1, sw.scratch());
                 } else {
-                    cbt.execute_to_constant(&module, &mut g, &lwe, log_domain, 1, scratch.borrow());
+                    cbt.execute_to_constant(&module, &mut g, &lwe, log_domain, 1, sw.scratch());
                 }
             });
+            rep.count("exact_scratch_calls", 1);
             if let Err(p) = r {
-                rep.violate(op, d, format!("panic: {p}"));
+                if !note_scratch(rep, op, &d, bytes, &p) {
+                    rep.violate(op, d, format!("panic: {p}"));
+                }
                 continue;
             }
             let mut m = vec![0i64; n];
